@@ -18,7 +18,7 @@ address set.
 -/
 import NetaddrVerif.Lemmas.C09L
 namespace NV.C09
-open NV Blk
+open NV Blk NV.C09L
 
 /-- two networks that share an address nest: the longer prefix lies inside the shorter -/
 theorem nested_of_overlap (w : Nat) (t e : Pfx) (ht : PWF w t) (he : PWF w e)
